@@ -175,6 +175,12 @@ Definition flow_ok (typ : string) (a : list (string * json)) : bool :=
   (if String.eqb au "" then negb in_auth else in_auth && aok a "#auth_ok")
   && (if String.eqb tu "" then negb in_tok else in_tok && aok a "#token_ok").
 
+(* the process-wide format registries (SchemaNumberFormats / SchemaIntegerFormats / SchemaStringFormats):
+   the names the harness registers with Define*FormatValidator before validating, one per registry *)
+Definition registered_number_formats : list string := ["x-num"].
+Definition registered_integer_formats : list string := ["x-int"].
+Definition registered_string_formats : list string := ["x-str"].
+
 (* ---- the rules each kind's Validate applies to the object itself ---- *)
 Definition is_k (k x : string) : bool := String.eqb k x.
 
@@ -183,10 +189,10 @@ Definition schema_type_ok (o : vopts) (a : list (string * json)) (ks : list (str
   let f := astr a "format" in
   if negb (ahas a "type") then true
   else if is_k t "boolean" || is_k t "object" then true
-  else if is_k t "number" then String.eqb f "" || str_in f ["float";"double"] || negb (vo_fmt o)
-  else if is_k t "integer" then String.eqb f "" || str_in f ["int32";"int64"] || negb (vo_fmt o)
+  else if is_k t "number" then String.eqb f "" || str_in f ["float";"double"] || str_in f registered_number_formats || negb (vo_fmt o)
+  else if is_k t "integer" then String.eqb f "" || str_in f ["int32";"int64"] || str_in f registered_integer_formats || negb (vo_fmt o)
   else if is_k t "string" then
-    (String.eqb f "" || str_in f known_string_formats || negb (vo_fmt o))
+    (String.eqb f "" || str_in f known_string_formats || str_in f registered_string_formats || negb (vo_fmt o))
     && (vo_nopat o || aok a "#pat_ok")
   else if is_k t "array" then has_kid "items" ks
   else false.
